@@ -175,8 +175,8 @@ def vsig(p, mode, exp=None, got=None):
 
 def judge(rep, p, res, prop_builds=None):
     """Compare chibi's observation of program p with the interpreter's; True when they agree."""
-    wit = {"program": p.model_text(), "expected_trace": M.show_obs(("list", p.exp[1], None)),
-           "expected_outcome": M.show_obs(p.exp[2])}
+    wit = {"program": p.model_text(), "tops": p.tops, "main": p.main,
+           "expected_trace": M.show_obs(("list", p.exp[1], None)), "expected_outcome": M.show_obs(p.exp[2])}
     if res is None or res.status == "missing":
         rep.inconc("no-output", p.id)
         return None
@@ -320,3 +320,35 @@ def check(rep, tier, seed):
                        "that has at most one effectful operand per application) has one R7RS-prescribed outcome",
                        "chibi's error messages identify the error class (fixed strings in vm.c / eval.c)",
                        "the observation reader (vf/sexpr.py) and chibi's `write` of integers, symbols, lists are correct"]
+
+
+def replay(path):
+    """./check C03 --replay <file>: re-run the witnesses of a replay file (interpreter vs the hooks build)."""
+    import json
+    from .. import report
+    d = json.load(open(path))
+    b = B.ensure("hooks")
+    bad = 0
+    for i, w in enumerate(d.get("witnesses", [])):
+        if "main" not in w:
+            print("witness %d has no program" % i)
+            continue
+        p = Prog("w%d" % i, ("replay",), w.get("tops", []), w["main"], "replay")
+        e = M.run_both(p.model_text())
+        print("program :", p.model_text())
+        if e[0] != "ok":
+            print("interpreter: outside the compared domain:", e)
+            continue
+        p.exp = e
+        res, _ = C.run_batches(b, IMPORTS, HEADER, [(p.id, p.case_text())], batch=1, timeout=60)
+        rep = report.Report("C03", "replay", d.get("seed", 0))
+        judge(rep, p, res.get(p.id))
+        r = res.get(p.id)
+        print("expected:", M.show_obs(("list", e[1], None)), M.show_obs(e[2]))
+        print("observed:", (r.text.strip() if r and r.status == "ok" else (r.status if r else None)))
+        if rep.violations:
+            bad += 1
+            print("=> still disagrees:", rep.violations[0][0])
+        else:
+            print("=> agrees now")
+    return 1 if bad else 0
